@@ -34,6 +34,10 @@ CHECKS = {
             "Because every history funnels through StoreFor::insert/remove and three callbacks, agreement after every history reduces to facts about a dozen functions, decided here for all paths: only sanctioned functions may write the 40 index / id-map / store / position fields (123 reviewed writer lines; a new writer is a violation); every index inserted() writes is un-written by preremove() from the matching accessor; each index write is guarded by its own configuration flag and ends in the new handle; handle-indexed vectors are never shifted, truncated or reordered; no indexed access sits in the branch where the index is out of range; a text selection is inserted only on the not-known edge of a complete look-up; range compression of sub-selectors compares resources and consecutive handles. Exactness of what the API iterators return is not decided.",
             "trusts rustc MIR, syn, rules/owners.json (reviewed), the ACCESSOR table in lib/props/c01.py; C01.SORTED of the design is not built",
             "DESIGN.md section 4 C01, A3, A4, A9", "mir+syn"),
+    "C02": ("other", "cascade coverage matrix derived from index field types vs fields consulted by each removal routine (syn); truth table of the retain predicate; guard shape of non-strict removal; collect/consume pairing of DELETE; panic-source reachability from the removal entry points (MIR)",
+            "Decides for all stores the structural necessary conditions of an exact, dangling-free cascade: for each of the five item kinds, the removal routine consults every live reverse index whose key mentions that kind (matrix derived from the field types, 11 cells); cascades that gather handles from several rows use a set; Annotation::remove_data keeps exactly the pairs that differ from (set, data) (4-row truth table); non-strict removal deletes the annotation only under an emptiness test; DELETE queries consume every collection they fill; and no undischarged panic source is reachable from the removal entry points ('succeeds whenever the item exists'). Exactness of the cascade for each store shape is not decided.",
+            "trusts syn/rustc, the ROUTINES and SUBSTITUTE tables in lib/props/c02.py, rules/panic_safe.json[C02]",
+            "DESIGN.md section 4 C02", "syn+mir"),
 }
 
 NA = {
